@@ -5,6 +5,7 @@ import (
 	"go/printer"
 	"go/token"
 
+	ah "mvdan.cc/garble/internal/asthelper"
 	"mvdan.cc/garble/internal/symx"
 	ev "mvdan.cc/garble/internal/symxeval"
 )
@@ -23,7 +24,7 @@ func H_C03_literals_deterministic() {
 	})
 	// targets: the five obfuscators (with the two helpers replaced by their
 	// contracts) and the two helpers themselves
-	target := symx.Choose(len(Obfuscators) + 2)
+	target := symx.Choose(len(Obfuscators) + 3)
 	if target < len(Obfuscators) {
 		installStubs()
 	}
@@ -43,6 +44,15 @@ func H_C03_literals_deterministic() {
 			node = Obfuscators[target].obfuscate(r, d, keys)
 		case target == len(Obfuscators):
 			node = byteLitWithExtKey(r, d[0], keys, normalProb)
+		case target == len(Obfuscators)+2:
+			// the external keys every literal wrapper starts with: names, types, widths and
+			// values (compared through the solver) are functions of the seeded draws
+			var sb bytes.Buffer
+			for _, k := range randExtKeys(r) {
+				sb.WriteString(k.name + " " + k.typ + " " + string(rune('0'+k.bits/8)) + " ")
+				sb.WriteString(ah.UintLit(k.value).Value + ";")
+			}
+			return sb.String()
 		default:
 			node = dataToByteSliceWithExtKeys(r, d, keys)
 		}
@@ -56,4 +66,3 @@ func H_C03_literals_deterministic() {
 	symx.Reach("twice")
 	symx.Assert(ev.SameText(out1, out2), "the emitted literal code depends only on the seeded random source")
 }
-
